@@ -146,6 +146,11 @@ Definition named_constant (id : str) : option const :=
   else if str_eqb id (lit "None") then Some CNone
   else None.
 
+(* names whose Python meaning is not a variable lookup: the three above (the parser yields Constant nodes for
+   them, never Name nodes) and the compile-time constant __debug__ *)
+Definition reserved_name (id : str) : bool :=
+  match named_constant id with Some _ => true | None => str_eqb id (lit "__debug__") end.
+
 (* IEEE binary64: exponent field all ones = infinity or NaN *)
 Definition float_finite (bits : Z) : bool :=
   negb (Z.eqb (Z.land (Z.shiftr bits 52) 2047) 2047).
@@ -326,7 +331,7 @@ Definition is_membership (op : cmpop) : bool :=
   match op with In | NotIn => true | _ => false end.
 
 (* The subset on which the tree means what Python means: supported, And/Or have >= 2 operands, no name is
-   spelled True/False/None (the parser never yields such a Name node), and a tuple display occurs only as
+   spelled True/False/None (the parser never yields such a Name node) or __debug__, and a tuple display occurs only as
    the right operand of in / not in (the converter turns tuples into List nodes). *)
 Fixpoint in_subset (e : expr) : bool :=
   match e with
@@ -342,7 +347,7 @@ Fixpoint in_subset (e : expr) : bool :=
       | _ => in_subset c
       end
   | ECompare _ _ _ _ => false
-  | EName _ id => match named_constant id with None => true | Some _ => false end
+  | EName _ id => negb (reserved_name id)
   | EConstant _ c => const_plain c
   | EAttribute _ v _ _ => in_subset v
   | EList _ es => forallb in_subset es
@@ -429,7 +434,7 @@ Section Eval.
     | ECompare _ l [op] [c] =>
         bindo (eval_py g l) (fun vl => bindo (eval_py g c) (fun vc => sem_cmp M op vl vc))
     | ECompare _ _ _ _ => Undef
-    | EName _ id => match named_constant id with None => g id | Some _ => Undef end
+    | EName _ id => if reserved_name id then Undef else g id
     | EConstant _ c => sem_const M c
     | EAttribute _ v a _ => bindo (eval_py g v) (fun x => sem_getattr M x a)
     | EList _ es => bindo (mapMo (eval_py g) es) (fun vs => Val (sem_list M vs))
@@ -543,6 +548,10 @@ Definition c_truthy (v : cval) : out cexc bool :=
 Fixpoint repeat_list {A} (n : nat) (l : list A) : list A :=
   match n with O => [] | S k => l ++ repeat_list k l end.
 
+(* sequence * n; long results are not modelled (unary length) *)
+Definition c_repeat {A} (mk : list A -> cval) (n : Z) (s : list A) : cout :=
+  if (1000 <? n) then Undef else Val (mk (repeat_list (Z.to_nat n) s)).
+
 Definition c_bin (op : arith) (a b : cval) : cout :=
   match as_int a, as_int b with
   | Some x, Some y =>
@@ -559,13 +568,13 @@ Definition c_bin (op : arith) (a b : cval) : cout :=
       | Add, VList s, VList t => Val (VList (s ++ t))
       | Add, VTuple s, VTuple t => Val (VTuple (s ++ t))
       | Mult, VStr s, _ =>
-          match as_int b with Some n => Val (VStr (repeat_list (Z.to_nat n) s)) | None => Raise TypeError end
+          match as_int b with Some n => c_repeat VStr n s | None => Raise TypeError end
       | Mult, VList s, _ =>
-          match as_int b with Some n => Val (VList (repeat_list (Z.to_nat n) s)) | None => Raise TypeError end
+          match as_int b with Some n => c_repeat VList n s | None => Raise TypeError end
       | Mult, _, VStr s =>
-          match as_int a with Some n => Val (VStr (repeat_list (Z.to_nat n) s)) | None => Raise TypeError end
+          match as_int a with Some n => c_repeat VStr n s | None => Raise TypeError end
       | Mult, _, VList s =>
-          match as_int a with Some n => Val (VList (repeat_list (Z.to_nat n) s)) | None => Raise TypeError end
+          match as_int a with Some n => c_repeat VList n s | None => Raise TypeError end
       | Mod, VStr _, _ => Undef                                       (* %-formatting: not modelled *)
       | _, VObj _, _ | _, _, VObj _ | _, VFunc _, _ | _, _, VFunc _ => Undef
       | Mult, VTuple _, _ | Mult, _, VTuple _ => Undef
@@ -759,3 +768,40 @@ Definition cout_agrees (m : cout) (py : cout) : bool :=
   | _, _ => false
   end.
 Definition cout_defined (m : cout) : bool := match m with Undef => false | _ => true end.
+
+(* ------------------------------------------------------------------------------------------- *)
+(* One correspondence case of the C40 check: the parser's and tokenizer's answers for a formula, what the
+   running parse_predicate_formula / parse_predicate_formula_json did, and the harness's own classification of
+   the expression (so that the oracle's notion of "supported" is the model's). *)
+Inductive json_obs := OEmpty | OSyntaxError (e : cerr) | ODumps (c : dumps_class).
+
+Definition observe_json (r : json_result) : json_obs :=
+  match r with JEmpty => OEmpty | JSyntaxError e => OSyntaxError e | JDumps c _ => ODumps c end.
+
+Definition json_obs_eqb (a b : json_obs) : bool :=
+  match a, b with
+  | OEmpty, OEmpty => true
+  | OSyntaxError x, OSyntaxError y => cerr_eqb x y
+  | ODumps x, ODumps y => dumps_class_eqb x y
+  | _, _ => false
+  end.
+
+Record c40_case := {
+  cc_ast : option expr; cc_comments : list str; cc_truthy : bool;
+  cc_parse : cres pyval; cc_json : json_obs;
+  cc_supported : bool; cc_in_subset : bool
+}.
+
+Definition c40_case_ok (c : c40_case) : bool :=
+  parse_result_eqb (parse_predicate false (cc_ast c) (cc_comments c)) (cc_parse c)
+  && json_obs_eqb (observe_json (parse_predicate_json false (cc_truthy c) (cc_ast c) (cc_comments c))) (cc_json c)
+  && match cc_ast c with
+     | Some e => Bool.eqb (supported e) (cc_supported c) && Bool.eqb (in_subset e) (cc_in_subset c)
+     | None => true
+     end.
+
+(* evaluation cases: expression, environment, what CPython's eval did *)
+Definition c40_eval_ok (c : expr * list (str * cval) * cout) : bool :=
+  match c with (e, g, py) => cout_agrees (eval_py CSem (cenv_of g) e) py end.
+Definition c40_eval_defined (c : expr * list (str * cval) * cout) : bool :=
+  match c with (e, g, _) => cout_defined (eval_py CSem (cenv_of g) e) end.
